@@ -4,6 +4,7 @@ import (
 	"fmt"
 	"go/constant"
 	"go/types"
+	"sort"
 	"strings"
 
 	"golang.org/x/tools/go/ssa"
@@ -415,49 +416,64 @@ func ruleC06R5(c *core.Ctx) {
 	s := x.NewState(fn, nil, nil)
 	terms := x.Run(s)
 	account(c, x, rule, fn)
-	seen := map[string]bool{}
 	bad := 0
+	// no result of any path may depend on the wall clock
 	for _, tm := range terms {
 		if tm.Kind != "return" || len(tm.Ret) != 2 {
 			continue
 		}
-		// which keyword does this path correspond to?
-		kw := ""
-		for k := range want {
-			outs := x.Possible(tm.State, fmt.Sprintf("ord(§date,c:%q)", k))
-			if outs == nil {
-				outs = x.Possible(tm.State, fmt.Sprintf("ord(c:%q,§date)", k))
-			}
-			if len(outs) == 1 && outs[0] == "=" {
-				kw = k
-			}
-		}
-		ret := tm.Ret[0]
-		if absint.Mentions(ret, "wallclock") {
-			c.Violate(rule, fname, "clock", c.P.Pos(tm.Pos), fmt.Sprintf("the resolved date %s depends on the wall clock, not on the supplied now (--today)", ret.Key()), describe(x, tm))
-			bad++
-			continue
-		}
-		if kw == "" {
-			continue
-		}
-		seen[kw] = true
-		c.Valuations = append(c.Valuations, "date="+kw)
-		okShape := false
-		if n := want[kw]; n == 0 {
-			// now, possibly through Local()/UTC-preserving identity
-			okShape = ret.Key() == "§now" || isCallOn(ret, "(time.Time).Local", "§now")
-		} else if t, ok := termCall(ret, "(time.Time).AddDate"); ok && len(t.Args) == 4 {
-			okShape = t.Args[0].Key() == "§now" && intConst(t.Args[1]) == 0 && intConst(t.Args[2]) == 0 && intConst(t.Args[3]) == int64(n)
-		}
-		if !okShape || !isNilConst(tm.Ret[1]) {
-			c.Violate(rule, fname, "keyword "+kw, c.P.Pos(tm.Pos), fmt.Sprintf("keyword %q resolves to %s (err %s); expected now shifted by %d days", kw, ret.Key(), tm.Ret[1].Key(), want[kw]), describe(x, tm))
+		if absint.Mentions(tm.Ret[0], "wallclock") {
+			c.Violate(rule, fname, "clock", c.P.Pos(tm.Pos), fmt.Sprintf("the resolved date %s depends on the wall clock, not on the supplied now (--today)", tm.Ret[0].Key()), describe(x, tm))
 			bad++
 		}
 	}
+	// each keyword, given literally, yields now shifted by its number of days (comparison chains, switches and
+	// constant lookup tables all evaluate on the literal)
+	dateIdx := -1
+	for i, p := range fn.Params {
+		if p.Name() == "date" {
+			dateIdx = i
+		}
+	}
+	if dateIdx < 0 {
+		dateIdx = len(fn.Params) - 1
+	}
+	kws := make([]string, 0, len(want))
 	for k := range want {
-		if !seen[k] {
-			c.Violate(rule, fname, "keyword "+k, c.P.Pos(fn.Pos()), fmt.Sprintf("no path recognises the keyword %q", k), nil)
+		kws = append(kws, k)
+	}
+	sort.Strings(kws)
+	for _, kw := range kws {
+		xk := newExec(c)
+		xk.Hooks.Call = x.Hooks.Call
+		params := make([]absint.Value, len(fn.Params))
+		for i, p := range fn.Params {
+			params[i] = absint.Sym{Name: p.Name()}
+		}
+		params[dateIdx] = absint.Const{V: constant.MakeString(kw)}
+		kterms := xk.Run(xk.NewState(fn, params, nil))
+		account(c, xk, rule, fn)
+		c.Valuations = append(c.Valuations, "date="+kw)
+		rets := 0
+		for _, tm := range kterms {
+			if tm.Kind != "return" || len(tm.Ret) != 2 {
+				continue
+			}
+			rets++
+			ret := tm.Ret[0]
+			okShape := false
+			if n := want[kw]; n == 0 {
+				okShape = ret.Key() == "§now" || isCallOn(ret, "(time.Time).Local", "§now")
+			} else if t, ok := termCall(ret, "(time.Time).AddDate"); ok && len(t.Args) == 4 {
+				okShape = t.Args[0].Key() == "§now" && intConst(t.Args[1]) == 0 && intConst(t.Args[2]) == 0 && intConst(t.Args[3]) == int64(n)
+			}
+			if !okShape || !isNilConst(tm.Ret[1]) {
+				c.Violate(rule, fname, "keyword "+kw, c.P.Pos(tm.Pos), fmt.Sprintf("keyword %q resolves to %s (err %s); expected now shifted by %d days", kw, ret.Key(), tm.Ret[1].Key(), want[kw]), describe(xk, tm))
+				bad++
+			}
+		}
+		if rets == 0 {
+			c.Violate(rule, fname, "keyword "+kw, c.P.Pos(fn.Pos()), fmt.Sprintf("no path returns for the keyword %q", kw), nil)
 			bad++
 		}
 	}
